@@ -49,6 +49,8 @@ def n(e, keep_casts=False):
         if inner[0] == "deref":
             return inner[1]  # reborrow `&*x` is `x`
         return ("ref", inner)
+    if k == "rawptr":
+        return ("rawptr", n(e[-1], keep_casts))
     if k in ("deref", "discr", "len"):
         return (k, n(e[1], keep_casts))
     if k == "field":
